@@ -100,9 +100,11 @@ PATS = {
 MODS = ["", "main", "ma", "mainx", "lib", "libfoo.so", "other", "libfoo.so.1", "m", "libc14so", "libc14so.so.7",
         "libc14file", "libc14file.so.7.1.x"]
 REALLIB = "@REALLIB@"       # replaced by the path of a real shared object (file libc14file.so.7.1, soname libc14so.so.7)
-MODPATHS = ["/usr/bin/main", "main", "/x/libfoo.so.1.2", "/nonexistent/other", REALLIB, REALLIB, "lib"]
-LIBS = ["/usr/bin/main", "main", "/x/libfoo.so.1.2", "dir/", "/a/b/other", "ma", "/main/x"]
-SONAMES = [None, None, "libfoo.so.1", "main", ""]
+MODPATHS = ["/usr/bin/main", "main", "/x/libfoo.so.1.2", "/nonexistent/other", REALLIB, REALLIB, "lib", "/x/mainx",
+            "/x/prog_plugin.so"]
+LIBS = ["/usr/bin/main", "main", "/x/libfoo.so.1.2", "dir/", "/a/b/other", "ma", "/main/x", "/x/mainx", "/x/main_plugin.so",
+        "/x/prog_plugin.so", "/x/prog"]
+SONAMES = [None, None, "libfoo.so.1", "main", "", "mainly", "prog"]
 
 
 def gen_opts(rng, ptype, n, names=None, mods=MODS, pmod=0.35):
@@ -195,7 +197,8 @@ def read_pat(out, c):
     items = []
     for _ in range(int(k[1])):
         t = out.next().split()
-        items.append({"type": int(t[1]), "pos": int(t[2]), "patt": unhx(t[3]), "mod": unhx(t[4])})
+        items.append({"type": int(t[1]), "pos": int(t[2]), "patt": unhx(t[3]), "mod": unhx(t[4]),
+                      "exact": int(t[5]) if len(t) > 5 else 0})
     c["items"] = items
     res = []
     for _ in c["queries"]:
@@ -230,8 +233,8 @@ def oracle_tables(c):
 
 
 def c_item(it):
-    return "{| pi_patt := {| pt_type := %s; pt_str := %s |}; pi_mod := %s; pi_pos := %s |}" % (
-        PT.get(it["type"], "PSimple"), cb(it["patt"]), cb(it["mod"]), cbool(it["pos"]))
+    return "{| pi_patt := {| pt_type := %s; pt_str := %s |}; pi_mod := %s; pi_pos := %s; pi_exact := %s |}" % (
+        PT.get(it["type"], "PSimple"), cb(it["patt"]), cb(it["mod"]), cbool(it["pos"]), cbool(it.get("exact", 0)))
 
 
 def c_tables(regok, tbl):
@@ -363,8 +366,19 @@ def gen_update_case(rng, i, witness=None):
         while len(code) < spacing:
             code.append(rng.choice([0xc3, 0x55, 0x90, 0x48, 0x89, 0xcc, 0x00, 0xe8]))
         named = rng.random() < 0.85
+        pre = 0
+        if ty == 5 and kind == "gcc" and not endbr and rng.random() < 0.3:
+            # -fpatchable-function-entry=N,M: M NOPs (and the recorded location) in front of the entry;
+            # either 5 NOPs remain at the entry (N = 5+M) or only 5-M (N = 5)
+            pre = rng.choice([1, 2, 3, 4])
+            if rng.random() < 0.5:
+                code[0:5] = bytes([0x90] * (5 - pre)) + bytes(rng.choice([0x55, 0x8d, 0x48]) for _ in range(pre))
+                tags.append("pre-entry-N=5")
+            else:
+                tags.append("pre-entry-N=5+M")
+            data += bytes([0x90] * pre)
         funcs.append({"off": len(data), "size": size, "name": names[k], "named": named, "kind": kind, "endbr": endbr,
-                      "stype": rng.choice([84, 84, 84, 116, 116, 119, 80, 100, 63])})
+                      "stype": rng.choice([84, 84, 84, 116, 116, 119, 80, 100, 63]), "pre": pre})
         data += code
         tags.append("pro=%s%s" % ("endbr+" if endbr else "", kind))
         if size < 6:
@@ -403,6 +417,8 @@ def gen_update_case(rng, i, witness=None):
             syms.append((a, f["size"], f["stype"], f["name"]))
         if ty == 5 and tight:
             targets.append(a)
+        elif ty == 5 and f.get("pre"):
+            targets.append(a - f["pre"])
         elif ty == 5:
             r = rng.random()
             if r < 0.85:
@@ -596,7 +612,7 @@ def impl_json(c):
     out = {}
     if "items" in c:
         out["parsed"] = [{"type": i["type"], "positive": i["pos"], "pattern": i["patt"].decode("latin1"),
-                          "module": i["mod"].decode("latin1")} for i in c["items"]]
+                          "module": i["mod"].decode("latin1"), "exact_module": i.get("exact", 0)} for i in c["items"]]
         out["answers"] = [[n, r, "".join("1" if b else "0" for b in bits)]
                           for (l, s, n), (r, bits) in zip(c["queries"], c["qres"])]
         out["match_pattern_module"] = [[pth, so.decode("latin1") if so is not None else None, r]
@@ -698,8 +714,11 @@ def common_meta(ctx):
                 "at least one function is visited with a non-zero decision; find cases: the same generated function "
                 "windows and symbol tables x 3 real ELF files (no profiling symbol, mcount, __fentry__) through "
                 "mcount_arch_find_module, non-trivial = a patching type is chosen; e2e cases: one generated program "
-                "(5 build variants incl. -mfentry -mnop-mcount with endbr64) x one -P/-U/-Z option set, plus a sweep of "
-                "-Z values around INT_MAX, 2^32, LONG_MAX, 0 and negative numbers")
+                "(10 build variants: gcc/clang/g++ patchable entries incl. =7,2, =5,2, non-PIE, C++ namespaces/overloads, "
+                "endbr64, -mfentry -mnop-mcount with and without endbr64; plus programs with a patchable shared library "
+                "linked at start-up or dlopen()ed, one case per module) x one -P/-U/-Z option set, plus a sweep of "
+                "-Z values around INT_MAX, 2^32, LONG_MAX, 0 and negative numbers; update cases also carry "
+                "patchable-section locations 1..4 bytes in front of a function")
     ctx.trusted = [
         "Coq 8.16.1 kernel incl. vm_compute (no native_compute); axioms as printed by Print Assumptions (none)",
         "hand-written model coq/theories/C14/Model.v of libmcount/dynamic.c (parse_pattern_list, match_pattern_list, "
@@ -711,7 +730,9 @@ def common_meta(ctx):
         "itself; a Gallina matcher is used and cross-checked for literal, '*' and '?' patterns",
         "correspondence harness harness/c/c14_harness.c (#includes libmcount/dynamic.c, links the scratch build's "
         "libmcount objects) + props/c14.py (generators, /proc/self/maps parsing, ELF/nm parsing for e2e)",
-        "gcc/clang used to build the generated e2e programs; the kernel's mprotect/mmap(MAP_FIXED_NOREPLACE)",
+        "gcc/clang/g++ used to build the generated e2e programs; the kernel's mprotect/mmap(MAP_FIXED_NOREPLACE); "
+        "the hand-written three-instruction machine of Model.v (NOP forms, call rel32, jmp *1(%rip)) and its "
+        "assumption that __fentry__ returns with the state preserved (property C01)",
     ]
     ctx.assume = [
         "mprotect on a module's text range succeeds (all pages mapped); its failure path (return -1) is not modelled",
